@@ -1787,12 +1787,30 @@ macro_rules! vec_impl_vec {
         /// Consuming iterator over this module's vector type.
         // Can't (De)Serialize a ManuallyDrop<T>
         //#[cfg_attr(feature="serde", derive(Serialize, Deserialize))]
-        #[derive(Debug, Hash, PartialEq, Eq)]
         pub struct IntoIter<T> {
             // NOTE: Use a CVec and not $Vec; repr_simd vectors can't monomorphize ManuallyDrop<T>.
             vector: CVec<ManuallyDrop<T>>,
             start: usize,
             end: usize,
+        }
+
+        // NOTE: Don't derive these: elements outside of `start .. end` were moved out
+        // and must not be read anymore. Only the remaining elements are relevant.
+        impl<T: fmt::Debug> fmt::Debug for IntoIter<T> {
+            fn fmt(&self, f: &mut Formatter) -> fmt::Result {
+                f.debug_tuple("IntoIter").field(&&self.vector[self.start .. self.end]).finish()
+            }
+        }
+        impl<T: PartialEq> PartialEq for IntoIter<T> {
+            fn eq(&self, other: &Self) -> bool {
+                self.vector[self.start .. self.end] == other.vector[other.start .. other.end]
+            }
+        }
+        impl<T: Eq> Eq for IntoIter<T> {}
+        impl<T: std::hash::Hash> std::hash::Hash for IntoIter<T> {
+            fn hash<H: std::hash::Hasher>(&self, state: &mut H) {
+                self.vector[self.start .. self.end].hash(state)
+            }
         }
 
         // NOTE: Be careful to only drop elements that weren't yielded.
